@@ -131,6 +131,12 @@ func (dc *decorator) schemaPosB(d Doc, boost string) Doc {
 			add("examples", DArr{g.value(1), g.value(2)}, "examples")
 		case 3:
 			add(pick(r, []string{"deprecated", "readOnly", "writeOnly"}), DBool(r.chance(1, 2)), "flag")
+			if r.chance(1, 2) {
+				// non-asserting keywords in combination
+				for _, k := range []string{"readOnly", "writeOnly", "deprecated"} {
+					add(k, DBool(true), "flag")
+				}
+			}
 		case 4:
 			add(pick(r, []string{"format", "contentEncoding", "contentMediaType"}), DStr(pick(r, []string{"date", "email", "base64", "application/json", "nonsense"})), "format")
 		case 5:
@@ -144,7 +150,12 @@ func (dc *decorator) schemaPosB(d Doc, boost string) Doc {
 				add(key, DObj{{"unused", pick(r, []Doc{DBool(false), DObj{{"type", DStr("null")}}, DObj{{"minimum", DNum("100")}}})}}, "defs")
 			}
 		case 7, 8:
-			add(pick(r, []string{"x-foo", "unknownKeyword", "$unknown", "ſ", "x y", ""}), g.value(2), "unknown")
+			uv := g.value(2)
+			if r.chance(1, 4) {
+				// any JSON value: numbers outside float64 included
+				uv = pick(r, []Doc{DNum("1e400"), DNum("-1e999"), DArr{DNum("0.5"), DNum("12345678901234567890e380")}, DObj{{"a", DArr{DNum("1"), DNum("-1e999")}}}})
+			}
+			add(pick(r, []string{"x-foo", "unknownKeyword", "$unknown", "ſ", "x y", ""}), uv, "unknown")
 		case 9, 10, 11:
 			// names that differ from a standard keyword only in letter case (or by a folding character)
 			add(pick(r, []string{"Type", "TYPE", "MinLength", "minlength", "REQUIRED", "Required", "Enum", "CONST", "Not", "AllOf", "itemſ", "Items", "Properties",
